@@ -6,7 +6,7 @@ from func_adl.ast.function_simplifier import simplify_chained_calls
 from vlib.sh.common import HI, LO, TWIN, L, attr, call, const, dump, lam, mcall, name, nt, pick, sub, tick
 
 PACKS = 8      # producer kinds
-CONS = 12      # consumer kinds
+CONS = 13      # consumer kinds
 NCODES = PACKS * CONS
 NAMES = [("x", "y", "z"), ("e", "e", "e"), ("x", "x", "y")]
 
@@ -70,6 +70,17 @@ def build(pk, cons, arity, idx, k0, k1, form, ns):
             return None
         inner = W(S(proj(b), lam("j", attr("j", "pt"))), lam("p", ast.Compare(other(b), [ast.Gt()], [const(30)])))
         return S(s1, lam(b, call("Count", inner)))
+    if cons == 12:    # three SelectMany stages in a row: flatten, package per inner element, take the packages apart in the LAST stage
+        if pk == 0:
+            per = ast.Tuple([name("t"), attr("j", "f1")], L)
+            p0, p1 = (lambda w: sub(name(w), 0)), (lambda w: sub(name(w), 1))
+        elif pk == 2:
+            per = ast.Dict([const(k0), const(k1)], [name("t"), attr("j", "f1")])
+            p0, p1 = (lambda w: ast.Attribute(name(w), k0, L)), (lambda w: sub(name(w), k1))
+        else:
+            return None
+        m2 = M(M(name("ds"), lam(a, attr(a, "js"))), lam("j", S(attr("j", "trk"), lam("t", per))))
+        return M(m2, lam(b, S(attr(p0(b), "hits"), lam("h", ast.BinOp(attr("h", "pt"), ast.Add(), p1(b))))))
     if cons == 9:     # a pass-through stage Select(x -> x) in a chain of four: package, take apart and package again, hand on as it is, take apart
         mid = S(s1, lam(b, ast.Tuple([other(b), scalar(b)], L)))
         return S(S(mid, lam(c, name(c))), lam("w", ast.BinOp(sub(name("w"), 0), ast.Add(), sub(name("w"), 1))))
@@ -131,7 +142,7 @@ def residue(r, cons):
 
 def c14(code: int, arity: int, idx: int, k0: str, k1: str, form: int, ns: int) -> str:
     """
-    pre: LO <= code < HI and 0 <= code < 96
+    pre: LO <= code < HI and 0 <= code < 104
     pre: 1 <= arity <= 3 and 0 <= idx <= 2 and 0 <= form <= 0 and 1 <= ns <= 2
     pre: len(k0) <= 2 and len(k1) <= 2 and k0 != k1
     post: (_ == '') != TWIN
@@ -141,7 +152,7 @@ def c14(code: int, arity: int, idx: int, k0: str, k1: str, form: int, ns: int) -
 
 def c14t(code: int, arity: int, idx: int, k0: str, k1: str, form: int, ns: int) -> str:
     """
-    pre: LO <= code < HI and 0 <= code < 96
+    pre: LO <= code < HI and 0 <= code < 104
     pre: 1 <= arity <= 3 and 0 <= idx <= 2 and 0 <= form <= 1 and 0 <= ns <= 2
     pre: len(k0) <= 3 and len(k1) <= 3 and k0 != k1
     post: (_ == '') != TWIN
@@ -153,14 +164,14 @@ def body(code, arity, idx, k0, k1, form, ns):
     code = pick(code, max(LO, 0), min(HI, NCODES))
     pk, cons = code // CONS, code % CONS
     # combinations that add nothing are kept out by symbolic range checks BEFORE the case splits, so no path is spent on them
-    if (pk == 7 and cons in (2, 3, 5)) or (cons == 6 and pk not in (5, 6, 7)) or (cons in (7, 8, 10) and pk not in (0, 2)) or (cons == 11 and pk not in (2, 6)):
+    if (pk == 7 and cons in (2, 3, 5)) or (cons == 6 and pk not in (5, 6, 7)) or (cons in (7, 8, 10, 12) and pk not in (0, 2)) or (cons == 11 and pk not in (2, 6)):
         return ""
     if pk in (0, 1):
         if idx >= arity:
             return ""
     elif arity != 3:
         return ""       # arity only varies for flat tuples / lists
-    if cons in (7, 8) and (arity != 3 or idx != 0):
+    if cons in (7, 8, 12) and (arity != 3 or idx != 0):
         return ""
     if cons in (10, 11) and arity != 3:
         return ""
